@@ -38,6 +38,7 @@ class GenOpts(object):
         self.oddunion_focus = 0       # 1/n of schemas get an 8-aligned union whose largest arm is a <=4-aligned composite of odd size, in holders
         self.size_name_exprs = False  # array extents as NAME*k / NAME + k over small constants (both front-ends can say them)
         self.smallopt_focus = 0       # 1/n of schemas get a fixed struct with a 1/2-byte optional at an odd offset, inside optional / limited array / union
+        self.long_fixed_bias = 0      # 1/n of fixed arrays of composites get 8-16 elements (0: never more than 6)
         self.tiny_focus = 0           # 1/n of schemas get an array of dynamic structs that can be shorter than 4 bytes
         self.block_focus = 0          # 1/n of schemas get a struct of 3-5 blocks whose bound arrays find their sizers in any earlier block
         self.const_exprs = False      # constants / enumerators given as expressions over earlier names
@@ -307,6 +308,9 @@ class _Builder(object):
                 t = 'bytes' if as_bytes else self.pick_type(FIXED)
                 if size > 16 and t not in NUMERIC and t != 'bytes':
                     size, expr = 3, None     # keep big arrays to scalars: value trees stay small
+                if (self.o.long_fixed_bias and kind == FIXARR and t not in NUMERIC and t != 'bytes' and
+                        self.draw(st.integers(0, self.o.long_fixed_bias - 1)) == 0):
+                    size, expr = self.draw(st.sampled_from([8, 9, 12, 16])), None
                 members.append(Member(mn, t, kind, size, size_expr=expr))
             elif kind in (DYNARR, GREEDY):
                 t = 'bytes' if as_bytes else self.pick_type(DYNAMIC)
@@ -359,6 +363,14 @@ class _Builder(object):
 
     def build(self):
         n = self.draw(st.integers(self.o.min_decls, self.o.max_decls))
+        if self.o.size_name_exprs:
+            # extents over names need names: one or two small constants first
+            for _ in range(self.draw(st.integers(1, 2))):
+                name = self.fresh('K')
+                v = self.draw(st.integers(1, 5))
+                self.decls.append(Const(name, v, str(v)))
+                self.small_consts.append((name, v))
+                self.disc_consts.append((name, v))
         for _ in range(n):
             c = self.draw(st.integers(0, 19))
             if c < 1:
